@@ -192,6 +192,21 @@ def shard(ctx: Ctx, cfg: str):
                 part.violations.append(Violation("alias", "C07:alias", f".{ext} -> {a} but base .{_ALIAS[ext]} -> {b} [{cfg}]",
                                                  {"kind": "paths", "path": f"x.{ext}", "cfg": cfg}))
     part.exhaustive[f"documented extensions x 5 case masks x {len(STEMS)} stems [{cfg}]"] = n
+    # ---- exhaustive: names whose MIME guess carries a content encoding (x.txt.br, x.csv.gz, backup.taz): whatever the router decides, both entry points decide the same
+    import mimetypes as _mt
+    encs = sorted(set(_mt.encodings_map) | {".gz", ".Z", ".bz2", ".xz", ".br"})
+    sufs = sorted(set(_mt.suffix_map) | {".tgz", ".taz", ".tz", ".tbz2", ".txz", ".svgz"})
+    m = 0
+    for stem in ("notes", "dir.x/Backup"):
+        for name in [f"{stem}.{e}{enc}" for e in ("txt", "csv", "json", "md", "html", "pdf", "docx", "xlsx", "eml", "xyz") for enc in encs] + [f"{stem}{sfx}" for sfx in sufs]:
+            for mask in (0, 2**30 - 1):
+                path = flip_case(name, mask)
+                fails, sup, got = judge(path, cfg)
+                m += 1
+                v = record(path, fails, got, False)
+                if v and len(part.violations) < 3:
+                    part.violations.extend(v)
+    part.exhaustive[f"names with a content-encoding suffix [{cfg}]"] = m
 
     # ---- random paths
     def ev(t):
